@@ -163,6 +163,15 @@ def primary_cases():
         (lab, b) = mk(dict(primary='unknown block with block flags %#x' % bflags, unk=True))
         b['blocks'].insert(0, dict(type=199, num=5, flags=bflags, crc_type=1, data=b'\x01\x02'))
         yield (lab, b)
+    # a hop-count block that carries block processing flags (replicate in every fragment, report / delete if it
+    # cannot be processed) and each CRC type: only its count changes on the way through
+    for (bflags, crc) in itertools.product((0x01, 0x02, 0x04, 0x10, 0x15), (0, 1, 2)):
+        (lab, b) = mk(dict(primary='hop-count block with block flags %#x, crc type %d' % (bflags, crc)))
+        for blk in b['blocks']:
+            if blk['type'] == B.T_HOP_COUNT:
+                blk['flags'] = bflags
+                blk['crc_type'] = crc
+        yield (lab, b)
 
 
 def check_case(label, bundle, mtu, world=None):
@@ -237,6 +246,11 @@ def check_case(label, bundle, mtu, world=None):
     if got_hops != want_hops:
         bad('hop-count-not-incremented-on-the-wire', dict(), 'received %r, transmitted %r, expected %r'
             % ([B.dec_hop_count(b['data']) for b in bundle['blocks'] if b['type'] == B.T_HOP_COUNT], got_hops, want_hops))
+    # ... and only the count: number, block processing flags and CRC type of a hop-count block stay as received
+    want_meta = sorted((b['num'], b['flags'], b['crc_type']) for b in bundle['blocks'] if b['type'] == B.T_HOP_COUNT)
+    got_meta = sorted((b['num'], b['flags'], b['crc_type']) for b in got['blocks'] if b['type'] == B.T_HOP_COUNT)
+    if got_meta != want_meta and not label.get('not_rfc9171'):
+        bad('hop-count-block-number-flags-or-crc-type-changed', dict(), 'received (number, flags, crc type) %r, transmitted %r' % (want_meta, got_meta))
     ages = [b for b in got['blocks'] if b['type'] == B.T_AGE]
     if len(ages) > 1:
         bad('more-than-one-age-block', dict(), str(len(ages)))
